@@ -394,6 +394,36 @@ VALIDATE = Contract(
 HEX_TASKS[H + "_validate_indicators"] = dict(builder=validate_builder, contract=VALIDATE)
 
 
+def validate_existing_builder(ex, st):
+    """a Hexital that already runs a T5 manager (with a member attached): two further T5 members must join it"""
+    import z3
+    from hexvc.objects import instantiate
+    from hexvc.state import DictP, ListP, ObjP
+    from hexvc.values import SInt
+    src = ex.ctx.source
+    hcls = src.module("hexital.core.hexital").classes["Hexital"]
+    mcls = src.module("hexital.core.candle_manager").classes["CandleManager"]
+    icls = src.module("hexital.indicators.ema").classes["EMA"]
+    for c in (hcls, mcls, icls):
+        src.resolve_class_bases(c)
+    mk = lambda tf: st.alloc(ObjP(mcls, {"candles": st.alloc(ListP([])), "timeframe": tf, "timeframe_fill": False, "candles_lifespan": None, "candlestick_type": None}))
+    m0, m1 = mk(None), mk("T5")
+    h = st.alloc(ObjP(hcls, {"name": "hex", "timeframe": None, "timeframe_fill": False, "candles_lifespan": None, "candlestick_type": None,
+                             "_candles": st.alloc(DictP({"default": m0, "T5": m1})), "_indicators": st.alloc(DictP({}))}))
+    st1, ind = list(instantiate(ex, icls, [], {"timeframe": "T5", "period": SInt(z3.Int("period"))}, st, None))[0]
+    st2, ind2 = list(instantiate(ex, icls, [], {"timeframe": "T5", "period": SInt(z3.Int("period2")), "fullname_override": "second"}, st1, None))[0]
+    lst = st2.alloc(ListP([ind, ind2]))
+    yield st2, [h, lst], {}, {"self": h, "indicators": lst, "ind": ind, "ind2": ind2, "m0": m0, "m1": m1}
+
+
+HEX_TASKS[H + "_validate_indicators#existing-timeframe"] = dict(
+    qualname=H + "_validate_indicators", builder=validate_existing_builder,
+    contract=Contract(H + "_validate_indicators", ensures={
+        "registered-manager-is-kept": "self._candles['T5'] is m1 and self._candles['default'] is m0",
+        "new-members-join-the-registered-manager": "ind._candles is m1 and ind2._candles is m1",
+    }, result_type="None", props=["C08"], use_at_calls=False))
+
+
 # ---- C08 / C19: Hexital.append hands the caller's candles to every manager (derived timeframes first: the default
 # manager may convert the objects in place), then calculates every indicator once all managers are fed
 _FAN = {}
